@@ -527,7 +527,7 @@ Proof.
                  |apply parse_sub82_total|apply dhcp_parse_total|apply parse_message4_total
                  |apply attr80_window_total|apply is_authentic_reply_total|apply validate_request_auth_total
                  |apply validate_message_auth_total|apply l2tp_dispatch_ppp_total]
-            | cbv zeta; safe_tac; first [apply has_service_type_total|apply event_timestamp_total|apply ipoe_msg_type_total]]|]).
+            | cbv zeta; safe_tac; first [apply handle_frame_total|apply has_service_type_total|apply event_timestamp_total|apply ipoe_msg_type_total]]|]).
   reflexivity.
 Qed.
 
